@@ -979,9 +979,9 @@ def array_from_scalar_or_array_gradmaker(ans, array_args, array_kwargs, scarray)
     ndmin = array_kwargs.get("ndmin", 0)
     scarray_ndim = anp.ndim(scarray)
     if ndmin > scarray_ndim:
-        return lambda g: anp.squeeze(g, axis=tuple(range(ndmin - scarray_ndim)))
+        return lambda g: match_complex(scarray, anp.squeeze(g, axis=tuple(range(ndmin - scarray_ndim))))
     else:
-        return lambda g: g
+        return lambda g: match_complex(scarray, g)
 
 
 defvjp(anp._array_from_scalar_or_array, array_from_scalar_or_array_gradmaker, argnums=(2, 3))
